@@ -271,3 +271,46 @@ pub fn vis_empty(property: &'static str, vis: Vis) -> ReplCell {
     };
     c
 }
+
+/// Two operations per round: same-frame combinations (remove + insert, despawn + respawn in the
+/// same slot, hide + despawn, ...).
+pub fn same_frame(property: &'static str) -> ReplCell {
+    let mut c = base("same-frame", property);
+    c.ops_per_round = 2;
+    c.alphabet = vec![
+        Op::Nop,
+        Op::Mut(0, TA),
+        Op::Rm(0, TB),
+        Op::Ins(0, TB),
+        Op::Despawn(0),
+        Op::Spawn(0, M_A),
+        Op::Unmark(0),
+        Op::Mark(0),
+    ];
+    c.rounds = 2;
+    c
+}
+
+/// Three clients under a blacklist with different visibility, sizes and schedules.
+pub fn three_clients(property: &'static str) -> ReplCell {
+    let mut c = base("3c", property);
+    c.cfg.vis = Vis::Blacklist;
+    c.cfg.clients = vec![1200, 64, 1200];
+    c.alphabet = vec![
+        Op::Nop,
+        Op::Mut(0, TA),
+        Op::Rm(0, TB),
+        Op::Vis(1, 0, false),
+        Op::Vis(1, 0, true),
+        Op::Despawn(0),
+        Op::Spawn(1, M_A),
+    ];
+    c.env = Env {
+        hold_acks: false,
+        hold_updates: 1,
+        mutations: MutMenu::Hold,
+        leftover_choice: false,
+        lossy: false,
+    };
+    c
+}
